@@ -17,28 +17,39 @@ PA = "b'proxy-authorization'"
 
 
 def build(reg):
+    from . import externs
     T = C08.build(reg)
+    externs.add_text(reg)       # text_() can raise UnicodeDecodeError (also inside exception messages)
     T = [c for c in T if c.qualname in ('HttpParser.del_header', 'HttpParser.del_headers')]
     pf = dict(proxyplugin.PARSER_FIELDS)
-    G = {'parses': 'int', 'fwd': 'int'}
+    G = {'parses': 'int', 'fwd': 'int', 'parse_raised': 'bool', 'plugin_raised': 'bool'}
+    from pyvc.engine import from_py
+    from proxy.http.responses import BAD_REQUEST_RESPONSE_PKT
+    reg.spec_consts['BAD_REQUEST'] = from_py(BAD_REQUEST_RESPONSE_PKT)
     reg.contract(PF, 'HttpParser.parse', params={'raw': 'mv', 'allowed_url_schemes': ('opt', ('list', 'bytes'))},
                  self_cls='HttpParser', assumed=True, modifies=['self.' + f for f in pf if f != 'type'],
-                 ghost_init={'parses': 'int'}, ensures=['parses == old(parses) + 1'],
-                 raises={'Exception': ['parses == old(parses) + 1']},
+                 ghost_init={'parses': 'int', 'parse_raised': 'bool'}, ensures=['parses == old(parses) + 1', 'parse_raised == old(parse_raised)'],
+                 raises={'Exception': ['parses == old(parses) + 1', 'parse_raised'],
+                         'proxy.http.exception.HttpProtocolException': ['parses == old(parses) + 1', 'parse_raised']},
                  note='adversarial follow-up parser: any state afterwards, or any exception (C03)')
     hc = reg.contracts['ProxyBasePlugin.handle_client_request']
     hc.result_alias = 'request'       # plugins pass the request on (possibly edited in place) or drop it
     hc.note = 'pass-through-or-drop plugins (a plugin substituting a different parser object is outside this contract)'
+    hc.ghost_init = dict(hc.ghost_init, hc_log=('seq', 'int'), plugin_raised='bool')
+    hc.ensures = hc.ensures + [('logged', 'hc_log == old(hc_log) + [self]'), ('no-raise-flag', 'plugin_raised == old(plugin_raised)')]
+    hc.raises = dict((k, list(v) + [('logged', 'hc_log == old(hc_log) + [self]'), ('raise-flag', 'plugin_raised')])
+                     for k, v in (hc.raises or {'Exception': []}).items())
     UB = 'self.upstream.buffer'
     T.append(reg.contract(
         SV, 'HttpProxyPlugin.on_client_data', self_cls='HttpProxyPlugin', params={'raw': 'mv'}, ghost_init=dict(G, hc_log=('seq', 'int')),
         requires=proxyplugin.PP_PRE + [
             ('established-http-exchange', 'not isnone(self.upstream) and not self.upstream.closed and self.request.state == 6 '
                                           'and not self.request._is_https_tunnel'),
-            ('no-plugins-dropping', 'True')],
+            ('no-plugins-dropping', 'True'), ('ghost-flags-start-clear', 'not plugin_raised and not parse_raised')],
         modifies=['self.pipeline_request', 'self.upstream.buffer', 'self.upstream._num_buffer'],
-        raise_modifies=['self.pipeline_request'],
+        raise_modifies=['self.pipeline_request', 'self.client.buffer', 'self.client._num_buffer'],
         ensures=[
+            ('a-parse-failure-cannot-return', 'parse_raised == old(parse_raised)'),
             ('every-segment-reaches-the-follow-up-parser', 'parses == old(parses) + 1 or '
              '(not isnone(old(self.pipeline_request)) and len(%s) == len(old(%s)) + 1)' % (UB, UB)),
             ('incomplete-request-is-kept',
@@ -52,7 +63,21 @@ def build(reg):
             ('credentials-never-forwarded', '(parses == old(parses) + 1 and len(%s) == len(old(%s)) + 1) ==> '
                                             'not has_field(%s[len(%s) - 1], %s)' % (UB, UB, UB, UB, PA)),
             ('repr', 'self.upstream._num_buffer == len(%s)' % UB)],
-        raises={'Exception': [('repr', 'self.upstream._num_buffer == len(%s)' % UB)]},
+        # first matching group decides.  Nothing but a protocol exception (answered, see below), a failed internal
+        # assertion or whatever a user plugin raises may leave: any other exception type escaping here would drop
+        # the connection without a response (C06)
+        raises={'proxy.http.exception.HttpProtocolException': [
+                    ('repr', 'self.upstream._num_buffer == len(%s)' % UB),
+                    ('malformed-follow-up-is-answered-400', '(parse_raised and not old(parse_raised)) ==> '
+                                                            'self.client.buffer == old(self.client.buffer) + [BAD_REQUEST]'),
+                    ('nothing-forwarded', '(parse_raised and not old(parse_raised)) ==> %s == old(%s)' % (UB, UB)),
+                    ('rejected-before-any-plugin-ran-is-answered-400',
+                     'hc_log == old(hc_log) ==> (self.client.buffer == old(self.client.buffer) + [BAD_REQUEST] and %s == old(%s))' % (UB, UB)),
+                    ('client-repr', 'self.client._num_buffer == len(self.client.buffer)')],
+                'AssertionError': [('repr', 'self.upstream._num_buffer == len(%s)' % UB),
+                                   ('not-after-a-parse-failure', 'parse_raised == old(parse_raised)')],
+                'Exception': [('repr', 'self.upstream._num_buffer == len(%s)' % UB),
+                              ('only-a-user-plugin-raises-anything-else', 'plugin_raised')]},
         loops={0: LoopSpec(unroll=1), 1: LoopSpec(unroll=2)}))
     return T
 
